@@ -129,16 +129,34 @@ _c("C05",
    "harness/sergen.py generator and reifier; CPython json.",
    "Coq proof (round-trip by mutual structural induction) + model/implementation correspondence in vm_compute")
 _c("C06",
-   "PARTIAL. Coq theorems (Props/C06.v, closed under the global context) for the extra-key clause: the exhaustive case analysis of "
+   "PARTIAL. Coq theorems (Props/C06.v, closed under the global context) over the executable model of the deserializer "
+   "(Ser/Deserialize.v) and of the constructor: (a) the extra-key clause -- the exhaustive case analysis of "
    "additional-properties x keep_undefined x ignore_invalid_additional_properties (C06_extra_keys_dropped / _rejected / _cases, "
-   "C06_keep_undefined_adjustment) over the executable model of the deserializer. The agreement clause (deserialize d == "
-   "constructor on the documented reading of d) is NOT proved: the independently written documented reading (Ser/DocReading.v) and "
-   "the model deserializer are both evaluated in Coq on every generated document (images, single-point corruptions, non-object "
-   "documents, both flags) and compared with the real Deserializer and with cls(**lift(d)).",
-   "Trusted: Coq kernel + vm_compute; Ser/Deserialize.v, Ser/DocReading.v hand-written; generator harness/sergen.py; CPython. "
-   "C06_agree / C06_error_class are decided by the differential only.",
-   "Coq proof (case analysis of the extra-key policy) + executable documented-reading spec and model/implementation "
-   "correspondence in vm_compute")
+   "C06_keep_undefined_adjustment); (b) the error-class clause -- for every well-formed class environment without a "
+   "positional container outside a multi-field wrapper, every rejection by Deserializer(cls).deserialize is a "
+   "TypeError/ValueError, for all documents, flags and nesting (C06_error_class, by induction over declarations and fuel; "
+   "C06_constructor_error_class for the final authority; C06_wrapper_error_class: AnyOf/OneOf/AllOf/NotField raise ValueError "
+   "whatever their alternatives raise), in general the only other exception is IndexError (C06_error_class_all) and that one "
+   "occurs (C06_error_class_refuted: the full statement is false of the faithful model, finding F9); (c) the exception handlers "
+   "of the deserializer are re-read from serialization.py on every run (Gen/DeserFlow.v) and the facts the model relies on "
+   "are proved over them (C06_src_*); (d) the agreement clause (deserialize d == constructor on the documented reading of d) "
+   "for the SCALAR fragment -- classes whose fields are numbers, strings, booleans, literal enums or Anything, every object "
+   "document with distinct string keys and no null member, keys in any order, any extra keys, both flags, keep_undefined "
+   "True/False (C06_agree_scalar; it rests on C06_constructor_order_free: for every class of the model the constructor's "
+   "outcome does not depend on the order of its keyword arguments). Beyond the scalar fragment the agreement clause is "
+   "NOT proved: the independently written documented reading (Ser/DocReading.v, including its treatment of the four "
+   "multi-field wrappers and of ambiguous readings) and the model deserializer are both evaluated in Coq on every generated "
+   "document of the model fragment (images, single-point corruptions at any depth, non-object documents, both flags; "
+   "wrapper-rich classes; a deterministic lattice wrapper kind x alternative whose trial fails outside TypeError/ValueError x "
+   "other alternative x order x position x document) and compared with the real Deserializer and with cls(**lift(d)).",
+   "Trusted: Coq kernel + vm_compute; Ser/Deserialize.v, Ser/DocReading.v hand-written; generators harness/sergen.py, "
+   "harness/c06gen.py; handler recogniser harness/genmods/deser_flow.py (fails closed); CPython. Outside the scalar fragment the "
+   "agreement clause is decided by the differential only. Field classes outside Fields/FieldAst.v (DecimalNumber, DateField/DateTime/TimeField, DateString/"
+   "TimeString, IPV4/HostName/JSONString) are judged by the constructor-on-documented-reading oracle only (no Coq model). A "
+   "document with two or more distinct candidate readings at a OneOf/AllOf/NotField is judged for its error class only.",
+   "Coq proof (case analysis of the extra-key policy; induction over declarations for the error class, parametric in "
+   "handler rows generated from the source; permutation invariance of the constructor and agreement on the scalar fragment) + executable documented-reading spec and model/implementation correspondence "
+   "in vm_compute")
 _c("C07",
    "Coq theorems (Props/C07.v, closed under the global context) over the executable model of mapper aggregation (Ser/Mappers.v): "
    "for any mapper list the aggregated mapper equals the declarative left-to-right rename chain (C07_agg_is_chain, induction over "
